@@ -55,6 +55,14 @@ structure Opts where
   portability : Bool     -- severity.isEnabled(Severity::portability)
   inconclusive : Bool    -- certainty.isEnabled(Certainty::inconclusive)
   cpp14 : Bool           -- C++ translation unit with standards.cpp >= CPP14 (tooBigSignedBitwiseShiftError)
+  gradedShiftNegative : Bool := false
+                         -- not a setting: which variant of negativeBitwiseShiftError the tree has — false: the code as found
+                         -- (`Severity::error` always, F04a), true: after proposed/C04-shiftnegative-severity.diff (graded by
+                         -- errorSeverity() like every other value-based check); the check reads the variant off the source
+  gradedIndexVector : Bool := false
+                         -- not a setting either: false = arrayIndexError / negativeIndexError as found (severity and id taken from the
+                         -- one index value `index`, F04c), true = after proposed/C04-index-vector-severity.diff (error only when every
+                         -- index value has errorSeverity(), `…Cond` id when any has a condition)
   deriving DecidableEq, Repr, Inhabited
 
 structure Report where
@@ -190,20 +198,55 @@ def nullPointer (o : Opts) (d : Deref) (vals : List Value) : List Report :=
               | _ => "nullPointer"
             [⟨id, sevOf v.isKnown, cert⟩]
 
-/-- the loop shared by `arrayIndexError` / `negativeIndexError` over a one-element index vector -/
-def indexError (o : Opts) (idOk idCond : String) (v : Value) : List Report :=
-  if !v.errorSeverity && !o.warning then []
-  else [⟨if v.cond then idCond else idOk, sevOf v.errorSeverity, certOf v.isInconclusive⟩]
+/-- `ValueFlow::Value::unknown()`: the placeholder for an index position nothing is known about -/
+def unknownValue : Value :=
+  { vtype := .uninit, kind := .possible, intvalue := 0, cond := false, defaultArg := false, path := 0, hasErrorPath := false,
+    safe := false, ufr := .no, indirect := 0 }
 
-/-- checkbufferoverrun.cpp `arrayIndex` for `a[i]` on a one-dimensional array of known size `size` ≥ 1 that is read or written
-    (not `&a[i]`); `vals` = the values of `i`, all with bound Point -/
-def arrayIndex (o : Opts) (size : Int) (vals : List Value) : List Report :=
-  (match isOutOfBounds size vals with
-   | some v => indexError o "arrayIndexOutOfBounds" "arrayIndexOutOfBoundsCond" v
-   | none => []) ++
-  (match getValueLE o vals (-1) with
-   | some v => indexError o "negativeIndex" "negativeIndex" v
-   | none => [])
+/-- token.cpp `Token::getKnownValue(ValueType::INT)`: only the first entry of the list is looked at -/
+def getKnownInt : List Value → Option Value
+  | v :: _ => if v.isKnown && v.isInt then some v else none
+  | [] => none
+
+/-- checkbufferoverrun.cpp `getOverrunIndexValues` for an element access (`isArrayIndex`), dimensions ≥ 1:
+    per dimension the out-of-bounds value, else the Known value, else `unknown()`; the flag says whether any dimension overflows -/
+def overrunIndexValues : List (Int × List Value) → List Value × Bool
+  | [] => ([], false)
+  | (size, vals) :: rest =>
+    match isOutOfBounds size vals with
+    | some v => (v :: (overrunIndexValues rest).1, true)
+    | none => ((getKnownInt vals).getD unknownValue :: (overrunIndexValues rest).1, (overrunIndexValues rest).2)
+
+/-- `if (!index || !indexValue.errorPath.empty()) index = &indexValue;` over the vector -/
+def pickIndex : Option Value → List Value → Option Value
+  | idx, [] => idx
+  | none, v :: rest => pickIndex (some v) rest
+  | some i, v :: rest => pickIndex (some (if v.hasErrorPath then v else i)) rest
+
+/-- the body shared by `arrayIndexError` / `negativeIndexError` -/
+def indexVectorError (o : Opts) (idOk idCond : String) (indexes : List Value) : List Report :=
+  if indexes.any (fun v => !v.errorSeverity && !o.warning) then []
+  else
+    match pickIndex none indexes with
+    | none => []
+    | some index =>
+      if o.gradedIndexVector then
+        [⟨if indexes.any (·.cond) then idCond else idOk, sevOf (indexes.all (·.errorSeverity)), certOf index.isInconclusive⟩]
+      else
+        [⟨if index.cond then idCond else idOk, sevOf index.errorSeverity, certOf index.isInconclusive⟩]
+
+/-- checkbufferoverrun.cpp `arrayIndex` for `a[i1]…[ik]` (read or written, not under `&`) on an array with known dimensions ≥ 1;
+    per dimension its size and the values of the index token (all with bound Point) -/
+def arrayIndexN (o : Opts) (dims : List (Int × List Value)) : List Report :=
+  (if (overrunIndexValues dims).2 then
+     indexVectorError o "arrayIndexOutOfBounds" "arrayIndexOutOfBoundsCond" (overrunIndexValues dims).1
+   else []) ++
+  (if dims.any (fun d => (getValueLE o d.2 (-1)).isSome) then
+     indexVectorError o "negativeIndex" "negativeIndex" (dims.map fun d => (getValueLE o d.2 (-1)).getD unknownValue)
+   else [])
+
+/-- one-dimensional array -/
+def arrayIndex (o : Opts) (size : Int) (vals : List Value) : List Report := arrayIndexN o [(size, vals)]
 
 /-- checktype.cpp `checkTooBigBitwiseShift` for one shift whose promoted left operand has `lhsbits` bits;
     `vals` = the values of the right operand -/
@@ -228,7 +271,10 @@ def shiftTooManyBits (o : Opts) (lhsbits : Int) (lhsSigned : Bool) (vals : List 
     `lvals`/`rvals` = the values of the operands, `lSigned`/`rSigned` = their valueType sign is SIGNED -/
 def shiftNegative (o : Opts) (lSigned rSigned : Bool) (lvals rvals : List Value) : List Report :=
   if o.portability && lSigned && (getValueLE o lvals (-1)).isSome then [⟨"shiftNegativeLHS", .portability, .normal⟩]
-  else if rSigned && (getValueLE o rvals (-1)).isSome then [⟨"shiftNegative", .error, .normal⟩]
+  else if rSigned then
+    match getValueLE o rvals (-1) with
+    | some v => [⟨"shiftNegative", if o.gradedShiftNegative then sevOf v.errorSeverity else .error, .normal⟩]
+    | none => []
   else []
 
 /-- `Check::getMessageId(value, id)` -/
@@ -290,13 +336,13 @@ def decideSev (c : Checker) (v : Value) (inconclusiveCheck : Bool) (o : Opts) : 
     else if !isEnabled o v inconclusiveCheck then none
     else if v.cond || v.defaultArg then some .warning
     else some (sevOf v.isKnown)
-  | .arrayIndex | .negativeIndex =>
+  | .arrayIndex | .negativeIndex =>      -- one-dimensional access: the index vector is [v]
     if !v.errorSeverity && !o.warning then none else some (sevOf v.errorSeverity)
   | .shiftTooManyBitsSigned =>
     if !isEnabled o v false then none
     else if o.cpp14 then (if o.portability then some .portability else none)
     else some (sevOf v.errorSeverity)
-  | .shiftNegative => some .error
+  | .shiftNegative => some (if o.gradedShiftNegative then sevOf v.errorSeverity else .error)
   | .uninitvar =>
     if v.isInconclusive then none
     else if !isEnabled o v false then none
